@@ -44,7 +44,24 @@ def check(cond, clause, sig=None, detail=""):
     """detail may be a zero-argument callable: it is evaluated only on failure (an eager f-string over symbolic
     values would realise them on every path)."""
     if not cond:
-        raise Violation(clause, sig, detail)
+        raise Violation(clause, sig, _freeze(detail))
+
+
+def _freeze(detail):
+    """A lazy detail is rendered after the harness has returned; names bound by `except ... as ex` are unbound when their
+    block exits, so the closure cells are copied (references only - nothing symbolic is evaluated) at failure time."""
+    cells = getattr(detail, "__closure__", None)
+    if not cells:
+        return detail
+    import types
+
+    frozen = []
+    for c in cells:
+        try:
+            frozen.append(types.CellType(c.cell_contents))
+        except ValueError:  # empty cell
+            frozen.append(c)
+    return types.FunctionType(detail.__code__, detail.__globals__, detail.__name__, detail.__defaults__, tuple(frozen))
 
 
 class Ob:
